@@ -20,6 +20,7 @@ import (
 	"errors"
 	"fmt"
 	"log"
+	"maps"
 	"math/rand"
 	"runtime"
 	"slices"
@@ -31,6 +32,8 @@ import (
 	"github.com/echovault/sugardb/internal"
 	"github.com/echovault/sugardb/internal/constants"
 	"github.com/echovault/sugardb/internal/eviction"
+	"github.com/echovault/sugardb/internal/modules/set"
+	"github.com/echovault/sugardb/internal/modules/sorted_set"
 	"github.com/echovault/sugardb/internal/verifhook"
 )
 
@@ -382,15 +385,42 @@ func (server *SugarDB) getState() map[int]map[string]interface{} {
 			break
 		}
 	}
+	// No command that writes runs while the state is copied, and the copy shares nothing with the store:
+	// collections are updated in place by later commands while the copy is being encoded.
+	server.commandLock.RLock()
+	server.storeLock.RLock()
 	data := make(map[int]map[string]interface{})
 	for db, store := range server.store {
 		data[db] = make(map[string]interface{})
 		for k, v := range store {
-			data[db][k] = v
+			data[db][k] = internal.KeyData{Value: copyValue(v.Value), ExpireAt: v.ExpireAt}
 		}
 	}
+	server.storeLock.RUnlock()
+	server.commandLock.RUnlock()
 	server.stateCopyInProgress.Store(false)
 	return data
+}
+
+// copyValue returns a copy of a stored value that shares no mutable structure with it.
+func copyValue(value interface{}) interface{} {
+	switch v := value.(type) {
+	case []string:
+		return slices.Clone(v)
+	case map[string]interface{}:
+		return maps.Clone(v)
+	case *set.Set:
+		if v == nil {
+			return v
+		}
+		return set.NewSet(v.GetAll())
+	case *sorted_set.SortedSet:
+		if v == nil {
+			return v
+		}
+		return sorted_set.NewSortedSet(v.GetAll())
+	}
+	return value
 }
 
 // updateKeysInCache updates either the key access count or the most recent access time in the cache
